@@ -2,7 +2,7 @@ use harper_core::Lrc;
 use harper_core::parsers::{Markdown, MarkdownOptions, Parser};
 use harper_core::{Span, Token};
 
-use super::without_initiators;
+use super::{CodeFenceTracker, without_initiators};
 
 /// A comment parser that strips starting `/` and `*` characters.
 ///
@@ -30,14 +30,10 @@ impl Parser for Unit {
         let mut tokens = Vec::new();
 
         let mut chars_traversed = 0;
-        let mut in_code_fence = false;
+        let mut code_fences = CodeFenceTracker::default();
 
         for line in source.split(|c| *c == '\n') {
-            if line_is_code_fence(line) {
-                in_code_fence = !in_code_fence;
-            }
-
-            if in_code_fence {
+            if code_fences.line_is_fenced(line) {
                 chars_traversed += line.len() + 1;
                 continue;
             }
@@ -79,11 +75,4 @@ fn parse_line(source: &[char], parser: Lrc<dyn Parser>) -> Vec<Token> {
         .for_each(|t| t.span.push_by(actual.start));
 
     new_tokens
-}
-
-fn line_is_code_fence(source: &[char]) -> bool {
-    let actual = without_initiators(source);
-    let actual_chars = actual.get_content(source);
-
-    matches!(actual_chars, ['`', '`', '`', ..])
 }
